@@ -7,8 +7,8 @@ import common
 import gen
 
 
-def harness_spec(D, periodic, omp=False, wide=False):
-    name = "h_core_%d_%d%s" % (D, periodic, "_omp" if omp else "")
+def harness_spec(D, periodic, omp=False, wide=False, starpu=False):
+    name = "h_core_%d_%d%s%s" % (D, periodic, "_omp" if omp else "", "_starpu" if starpu else "")
     flags = ["-DDIM=%d" % D, "-DPERIODIC=%d" % periodic]
     if wide:
         name += "_w64"
@@ -17,12 +17,15 @@ def harness_spec(D, periodic, omp=False, wide=False):
     if omp:
         flags += ["-DUSE_OMP", "-fopenmp"]
         srcs.append("mock_gomp.cpp")
+    if starpu:
+        flags += ["-DUSE_STARPU", "-I" + os.path.join(common.VERIF, "harness", "mock_starpu")]
+        srcs.append("mock_starpu.cpp")
     return {"name": name, "sources": srcs, "flags": flags}
 
 
-def build_harnesses(configs, omp=False, wide=False):
+def build_harnesses(configs, omp=False, wide=False, starpu=False):
     """configs: iterable of (D, periodic).  returns ({(D,periodic): path}, {(D,periodic): compile log of failures})"""
-    specs = {c: harness_spec(c[0], c[1], omp, wide) for c in sorted(set(configs))}
+    specs = {c: harness_spec(c[0], c[1], omp, wide, starpu) for c in sorted(set(configs))}
     res = common.build_many(list(specs.values()))
     ok, bad = {}, {}
     for c, s in specs.items():
